@@ -679,7 +679,7 @@ Definition handle (n : node) (c : nat) (rq : request) : node * resp :=
   | RqResolve opp_id dbn key value version =>
       (* fix H8.1/H9.4: a resolve needs write access to the key like any other write *)
       let run (dbn0 : str) :=
-        if is_primary n then
+        if is_primary n || (auth && sess_is_primary s) then      (* fix H14.1: a resolve replicated by the primary is applied *)
           fst (resolve_conflict n dbn0 (mkCh key value version opp_id true))
         else send_to_primary n ("resolve " +++ N_to_str opp_id +++ " " +++ dbn +++ " " +++ key +++ " "
                                 +++ Z_to_str version +++ " " +++ value) in
